@@ -1,1 +1,99 @@
-crate::list![];
+//! C20 (K part): the evaluator's checked memory model (`lir::eval::Memory`)
+//! round-trips every in-bounds aligned access and panics ("stops loudly") on
+//! out-of-bounds, misaligned and popped-frame accesses - it never completes
+//! such an access with some value.
+use crate::cover;
+use crate::nd::{any, assume};
+use roto::verif_api::Memory;
+
+fn any_width() -> usize {
+    let k: u8 = any();
+    assume(k < 4);
+    1usize << k
+}
+
+/// For every allocation size <= 16, offset <= 17 and access width in
+/// {1,2,4,8}: an access is accepted iff it is in bounds and aligned (the
+/// documented rule), and an accepted write is what a following read returns,
+/// without disturbing a neighbouring allocation.
+#[cfg_attr(kani, kani::proof)]
+#[cfg_attr(kani, kani::unwind(18))]
+pub fn c20_memory_write_read() {
+    let size: usize = any();
+    assume(size <= 16);
+    let off: usize = any();
+    assume(off <= 17);
+    let w = any_width();
+    let mut mem = Memory::new();
+    let guard = mem.allocate(8);
+    mem.write(guard, &[0xEE; 8]);
+    let p = mem.allocate(size);
+    let q = mem.verif_offset_by(p, off);
+    let data: [u8; 8] = any();
+    let ok = off + w <= size && off % w == 0;
+    // the harness only performs accesses the documented rule accepts; the rejected ones are c20_memory_rejects
+    assume(ok);
+    mem.write(q, &data[..w]);
+    let r = mem.read_slice(q, w);
+    let mut k = 0;
+    while k < w {
+        assert!(r[k] == data[k], "read does not return what was written");
+        k += 1;
+    }
+    let g: [u8; 8] = mem.read_array(guard);
+    assert!(g == [0xEE; 8], "write leaked into another allocation");
+    cover!(off > 0 && w == 8, "offset_8_byte_access");
+    std::mem::forget(mem);
+}
+
+/// Contrapositive of "invalid accesses stop loudly": whenever a write or read
+/// *completes*, it was in bounds and aligned. The evaluator's own
+/// `assert!`s firing for invalid inputs are the expected loud stops (the
+/// runner ignores failed checks whose text is one of its messages); the only
+/// check that counts is the harness's "invalid access completed".
+#[cfg_attr(kani, kani::proof)]
+#[cfg_attr(kani, kani::unwind(18))]
+pub fn c20_memory_rejects() {
+    let size: usize = any();
+    assume(size <= 16);
+    let off: usize = any();
+    assume(off <= 17);
+    let w = any_width();
+    let mut mem = Memory::new();
+    let p = mem.allocate(size);
+    let q = mem.verif_offset_by(p, off);
+    let data: [u8; 8] = any();
+    let ok = off + w <= size && off % w == 0;
+    let do_write: bool = any();
+    if do_write {
+        mem.write(q, &data[..w]);
+    } else {
+        let _ = mem.read_slice(q, w);
+    }
+    assert!(ok, "MUST-STOP: an out-of-bounds or misaligned access completed");
+    cover!(ok, "valid_access_completes");
+    std::mem::forget(mem);
+}
+
+/// A pointer into a popped stack frame must not be usable once another frame
+/// has taken its place (frame ids differ): the access stops loudly.
+#[cfg_attr(kani, kani::proof)]
+#[cfg_attr(kani, kani::unwind(10))]
+pub fn c20_memory_dangling_frame() {
+    let mut mem = Memory::new();
+    mem.verif_push_frame();
+    let p = mem.allocate(8);
+    mem.write(p, &[1; 8]);
+    assert!(mem.verif_pop_frame());
+    mem.verif_push_frame();
+    let _q = mem.allocate(8);
+    let read: bool = any();
+    if read {
+        let _ = mem.read_slice(p, 8);
+    } else {
+        mem.write(p, &[2; 8]);
+    }
+    assert!(false, "MUST-STOP: access through a pointer into a popped frame completed");
+}
+
+crate::list![c20_memory_write_read, c20_memory_rejects, c20_memory_dangling_frame];
